@@ -23,6 +23,7 @@ CONSTANTS
   KeepRights = {TRUE, FALSE}
   Scrollbars <- MCScrollbars
   Borders = {TRUE, FALSE}
+  Tabstops = {8}
   Patterns <- MCPatterns
   Acts = {"move", "pattern"}
 INIT Init
